@@ -218,7 +218,16 @@ def _make_state(case):
     arng = random.Random(case["seed"] ^ 0x2545F491)        # private stream of the audit fields
     kw = {}
     if case.get("names"):
-        kw["names"] = dict(enumerate(arng.sample(NAME_POOL, len(par))))
+        sel = arng.sample(NAME_POOL, len(par))
+        if len(par) >= 2 and arng.random() < 0.5:
+            # a node named like the default identifiers of the split API for ANOTHER node of the same network
+            # ("in_of_<x>" / "out_of_<x>", what split_node_qr / split_node_svd produce by default): the temporary tensors
+            # of a centre move must not collide with it (round-4 seed C03-R4A)
+            i, j = arng.sample(range(len(par)), 2)
+            derived = arng.choice(["in_of_", "out_of_"]) + sel[i]
+            if derived not in sel:
+                sel[j] = derived
+        kw["names"] = dict(enumerate(sel))
     if case.get("opens") == "mixed":
         # a TreeTensorNetwork node may have no open leg or several; canonical_form is a method of the base class
         from pytreenet.ttns.ttns import TreeTensorNetworkState
